@@ -37,6 +37,10 @@
 (* cancelled only by worker w's own failing ReadOne, i.e. after the pipe was *)
 (* closed (the reader is done) or when w is already cancelled.               *)
 (*                                                                           *)
+(* The consumer's Read / Close are atomic here; the interleaving of a Close    *)
+(* with the ENTRY of the first ReadOne (closer.state check vs. the WithCancel *)
+(* once) is modelled separately in FirstAdvance.tla.                          *)
+(*                                                                           *)
 (* Unbuffered channels are rendezvous actions (Handoff); select with         *)
 (* ctx.Done() adds an alternative enabled once the context is done; a send   *)
 (* on a closed channel is the recovered panic of chan.go:341-345 (-> io.EOF, *)
